@@ -94,10 +94,16 @@ func main() {
 			large = append(large, n)
 		}
 		r.Part("E1-small-buffers", func(t *explore.T) {
-			D := t.Pick(3, 4)
-			enumerate(t, configs(small), D)
+			enumerate(t, configs(small), 3)
+			D := 3
+			if t.Thorough() {
+				// depth 4 on the sizes that sit on each side of the 125/126 header-reservation threshold
+				// for both sides, and on the tiny ones
+				D = 4
+				enumerate(t, configs([]int{3, 9, 127, 128, 131, 132}), 4)
+			}
 			t.Outcome("well-formed")
-			t.Note(fmt.Sprintf("4 constructors x sizes {3,4,9,16,123..133} x side x DisableFlush x extension; every history of <=%d ops over the 20-op alphabet {Write 0/1/S-1/S/S+1/2S+1, ReadFrom 0/S/2S+1 x chunk inf/1, WriteThrough 0/1/S+1, FlushFragment, Flush, Grow 1/S/4S} + closing Flush; all clauses checked after every call", D))
+			t.Note(fmt.Sprintf("5 constructors x sizes {3,4,9,16,123..133} x side x DisableFlush x extension (state carrying the extended/fragmented bits); every history of <=3 ops (<=%d on sizes 3,9,127,128,131,132) over the %d-op alphabet {Write 0/1/S-1/S/S+1/2S+1, ReadFrom 0/S/2S+1 from sources delivering all at once / byte-wise / data together with EOF, ReadFrom S+1 from a *bytes.Reader, ReadFrom from sources that fail after or together with 3 (S+2) bytes, WriteThrough 0/1/S+1, FlushFragment, Flush, Grow 1/S/4S, Reset to a new destination of the other side} + closing Flush; all clauses checked after every call", D, len(wops.Alphabet(16))+1))
 		})
 		r.Part("E2-large-buffers", func(t *explore.T) {
 			D := t.Pick(2, 3)
